@@ -150,7 +150,7 @@ def run(chk: lib.Check):
             A = graph.Abstraction()
             fragmented_layout = "resources" not in spec and hi % 3 == 2
             runner = histories.HistoryRunner(model, rng, savedir=tmp,
-                                             kinds=histories.HistoryRunner.KINDS + ["save", "viewpoint"] + (["delete_linked"] * 6 if fragmented_layout else []))
+                                             kinds=histories.HistoryRunner.KINDS + ["save", "viewpoint"] + (["delete_linked"] * 6 + ["placeholder_ancestor"] * 3 if fragmented_layout else []))
             tracked = [p for p in loader.trees if p.suffix not in graph.VISUAL and p.parts[0] == "\0"]
             before = {p: A.nodes(loader.trees[p]) for p in tracked}
             nodes0 = {p: list(before[p]) for p in tracked}
@@ -199,6 +199,7 @@ def run(chk: lib.Check):
                     before[p] = after
                     touched_now |= {A.S.rev[u] for u in t_ids}
                 ever_touched |= touched_now
+                ever_touched |= set(getattr(runner, "extra_ids", []))      # ids handed out by operations on stale handles
                 ids_to_check = sorted(ever_touched) + rng.sample(all_ids0, min(120, len(all_ids0)))
                 check_lookups(chk, model, A, ids_to_check, label, spec0, list(hist_desc))
                 if si % 5 == 4 or si == n_steps - 1:
